@@ -678,3 +678,9 @@ fn compute_f_us_cr_by_srv_t(
     }
     factors_us_k
 }
+
+/// Pass-through wrapper for the verification harnesses (see `verif_hooks` in lib.rs)
+#[cfg(any(energiacte_cteepbd_verif, kani))]
+pub(crate) fn verif_compute_f_match(produced: &[f32], used: &[f32], load_matching: bool) -> Vec<f32> {
+    compute_f_match(produced, used, load_matching)
+}
